@@ -569,27 +569,50 @@ extern "C" void w_lpmod(int syncmode, int objsense, int loaded, int hasBasis, in
    h._status = (SPxSolverBase<R>::Status)out[1]; h._hasSolReal = (out[2] != 0); h._hasSolRational = (out[3] != 0);
    h._solReal.which = 0; h._solRational.which = 1;
 
-   /* argument objects */
-   VectorBase<R> vr1; vr1.d = vec1; vr1.dimen = n; VectorBase<R> vr2; vr2.d = vec2; vr2.dimen = n;
-   VectorRational vq1; vq1.q = qvec1; vq1.dimen = n; VectorRational vq2; vq2.q = qvec2; vq2.dimen = n;
-   LPRowBase<R> rowr; rowr.left = v1; rowr.right = v2; rowr.vtag = vtag;
-   LPRowRational rowq; rowq.left.v = w1; rowq.right.v = w2; rowq.vtag = vtag;
-   LPColBase<R> colr; colr.low = v1; colr.up = v2; colr.object = v3; colr.vtag = vtag;
-   LPColRational colq; colq.low.v = w1; colq.up.v = w2; colq.object.v = w3; colq.vtag = vtag;
-   LPRowSetBase<R> rsetr; rsetr.n = n; rsetr.tag = vtag; rsetr.lo = vr1; rsetr.hi = vr2;
-   LPRowSetRational rsetq; rsetq.n = n; rsetq.tag = vtag; rsetq.lo = vq1; rsetq.hi = vq2;
-   LPColSetBase<R> csetr; csetr.n = n; csetr.tag = vtag; csetr.lo = vr1; csetr.hi = vr2;
-   LPColSetRational csetq; csetq.n = n; csetq.tag = vtag; csetq.lo = vq1; csetq.hi = vq2;
-   SVectorBase<R> svr; svr.tag = vtag;
-   mpq_t m1; m1[0].v = w1; mpq_t m2; m2[0].v = w2;
+   /* argument objects (only the ones the PROLOGUE of this instance binds are built: gen.py defines NEED_<slot>) */
    h.a_i = i; h.a_j = j; h.a_n = n; h.a_perm = permnull ? 0 : perm; h.a_idx = idx;
    h.a_r1 = v1; h.a_r2 = v2; h.a_r3 = v3; h.a_q1.v = w1; h.a_q2.v = w2; h.a_q3.v = w3;
-   h.a_vr1 = &vr1; h.a_vr2 = &vr2; h.a_vq1 = &vq1; h.a_vq2 = &vq2;
-   h.a_rowr = &rowr; h.a_rowq = &rowq; h.a_colr = &colr; h.a_colq = &colq;
-   h.a_rsetr = &rsetr; h.a_rsetq = &rsetq; h.a_csetr = &csetr; h.a_csetq = &csetq; h.a_svr = &svr;
-   h.a_m1 = (const mpq_t*)&m1; h.a_m2 = (const mpq_t*)&m2;
    h.a_rt = (Host::RangeType)i;
    h.a_rows = (VarStatusR*)perm; h.a_cols = (VarStatusR*)idx;
+#if defined(NEED_a_vr1) || defined(NEED_a_vr2) || defined(NEED_a_rsetr) || defined(NEED_a_csetr)
+   VectorBase<R> vr1; vr1.d = vec1; vr1.dimen = n; VectorBase<R> vr2; vr2.d = vec2; vr2.dimen = n;
+   h.a_vr1 = &vr1; h.a_vr2 = &vr2;
+#endif
+#if defined(NEED_a_vq1) || defined(NEED_a_vq2) || defined(NEED_a_rsetq) || defined(NEED_a_csetq)
+   VectorRational vq1; vq1.q = qvec1; vq1.dimen = n; VectorRational vq2; vq2.q = qvec2; vq2.dimen = n;
+   h.a_vq1 = &vq1; h.a_vq2 = &vq2;
+#endif
+#ifdef NEED_a_rowr
+   LPRowBase<R> rowr; rowr.left = v1; rowr.right = v2; rowr.vtag = vtag; h.a_rowr = &rowr;
+#endif
+#ifdef NEED_a_rowq
+   LPRowRational rowq; rowq.left.v = w1; rowq.right.v = w2; rowq.vtag = vtag; h.a_rowq = &rowq;
+#endif
+#ifdef NEED_a_colr
+   LPColBase<R> colr; colr.low = v1; colr.up = v2; colr.object = v3; colr.vtag = vtag; h.a_colr = &colr;
+#endif
+#ifdef NEED_a_colq
+   LPColRational colq; colq.low.v = w1; colq.up.v = w2; colq.object.v = w3; colq.vtag = vtag; h.a_colq = &colq;
+#endif
+#ifdef NEED_a_rsetr
+   LPRowSetBase<R> rsetr; rsetr.n = n; rsetr.tag = vtag; rsetr.lo = vr1; rsetr.hi = vr2; h.a_rsetr = &rsetr;
+#endif
+#ifdef NEED_a_rsetq
+   LPRowSetRational rsetq; rsetq.n = n; rsetq.tag = vtag; rsetq.lo = vq1; rsetq.hi = vq2; h.a_rsetq = &rsetq;
+#endif
+#ifdef NEED_a_csetr
+   LPColSetBase<R> csetr; csetr.n = n; csetr.tag = vtag; csetr.lo = vr1; csetr.hi = vr2; h.a_csetr = &csetr;
+#endif
+#ifdef NEED_a_csetq
+   LPColSetRational csetq; csetq.n = n; csetq.tag = vtag; csetq.lo = vq1; csetq.hi = vq2; h.a_csetq = &csetq;
+#endif
+#ifdef NEED_a_svr
+   SVectorBase<R> svr; svr.tag = vtag; h.a_svr = &svr;
+#endif
+#if defined(NEED_a_m1) || defined(NEED_a_m2)
+   mpq_t m1; m1[0].v = w1; mpq_t m2; m2[0].v = w2;
+   h.a_m1 = (const mpq_t*)&m1; h.a_m2 = (const mpq_t*)&m2;
+#endif
 
    /* alias pointers and dimension ghosts for loop invariants */
    gp_rowTypes = rowTypes; gp_colTypes = colTypes; gp_bsRows = bsRows; gp_bsCols = bsCols; gp_perm = perm;
